@@ -51,9 +51,9 @@ type Unit struct {
 // Options selects bounds.
 type Options struct {
 	CtrlDepth     int
-	CtrlGroup     int                               // ctrl cases merged per module
-	CtrlPartition func(c watgen.CtrlCase) string    // cases with different labels are never merged ("" default)
-	RecDepths     []uint32                          // recursion depths
+	CtrlGroup     int                            // ctrl cases merged per module
+	CtrlPartition func(c watgen.CtrlCase) string // cases with different labels are never merged ("" default)
+	RecDepths     []uint32                       // recursion depths
 	Thorough      bool
 }
 
@@ -489,9 +489,9 @@ func bulkUnits() []*Unit {
 		u := newUnit("bulk", "memory.init")
 		u.addMemory(MemPages, MemMaxPages)
 		u.Module.Datas = []watgen.Data{{Offset: 16, Bytes: []byte("abcdefgh")}}
-		u.addFunc("init", ft(pv(i32, i32, i32)), nil, []watgen.Instr{lget(0), lget(1), lget(2), watgen.InsIdx(watgen.OpMemoryInit, 0)}, false)
+		u.addFunc("minit", ft(pv(i32, i32, i32)), nil, []watgen.Instr{lget(0), lget(1), lget(2), watgen.InsIdx(watgen.OpMemoryInit, 0)}, false)
 		for _, c := range [][3]int64{{0, 0, 0}, {100, 0, 0}, {S, 0, 0}, {S + 1, 0, 0}, {100, 0, 3}, {100, 2, 4}, {100, 0, 8}, {100, 1, 0}, {100, 9, 0}} {
-			u.Calls = append(u.Calls, Call{Fn: "init", Args: []uint64{u32(c[0]), u32(c[1]), u32(c[2])}, Instr: "memory.init",
+			u.Calls = append(u.Calls, Call{Fn: "minit", Args: []uint64{u32(c[0]), u32(c[1]), u32(c[2])}, Instr: "memory.init",
 				Class: fmt.Sprintf("dst=%d,src=%d,len=%d", c[0], c[1], c[2]), Desc: fmt.Sprintf("dst=%d src=%d len=%d", c[0], c[1], c[2]), Fresh: true})
 		}
 		out = append(out, u)
@@ -538,9 +538,9 @@ func varUnits() []*Unit {
 		// float global initialisers that need more than six decimals
 		u := newUnit("var", "global-init-precision")
 		u.Module.Globals = []watgen.Global{
-			{Id: "tiny32", Type: f32, Init: watgen.F32Const(uint32(f32v(1e-7)))},
-			{Id: "tiny64", Type: f64, Init: watgen.F64Const(f64v(1e-7))},
-			{Id: "frac64", Type: f64, Init: watgen.F64Const(f64v(1.00000001))},
+			{Id: "g_tiny32", Type: f32, Init: watgen.F32Const(uint32(f32v(1e-7)))},
+			{Id: "g_tiny64", Type: f64, Init: watgen.F64Const(f64v(1e-7))},
+			{Id: "g_frac64", Type: f64, Init: watgen.F64Const(f64v(1.00000001))},
 		}
 		u.addFunc("tiny32", ft(nil, f32), nil, []watgen.Instr{watgen.InsIdx(watgen.OpGlobalGet, 0)}, false)
 		u.addFunc("tiny64", ft(nil, f64), nil, []watgen.Instr{watgen.InsIdx(watgen.OpGlobalGet, 1)}, false)
@@ -678,31 +678,54 @@ func callUnits(o Options) []*Unit {
 				u.Calls = append(u.Calls, Call{Fn: "pass_" + ts, Args: []uint64{v.Bits}, Instr: "call", Class: "pass," + ts + "," + v.Class, Desc: v.Name})
 			}
 		}
-		// multi-value: (i32 i64 f32 f64) -> (f64 f32 i64 i32)
-		mv := u.addFunc("mv", ft(pv(i32, i64, f32, f64), f64, f32, i64, i32), nil, []watgen.Instr{lget(3), lget(2), lget(1), lget(0)}, false)
-		// use_mv calls mv and folds the four results into one i64
-		u.addFunc("use_mv", ft(pv(i32, i64, f32, f64), i64), []watgen.Local{{Id: "a", Type: i32}, {Id: "b", Type: i64}, {Id: "c", Type: f32}, {Id: "d", Type: f64}},
-			[]watgen.Instr{lget(0), lget(1), lget(2), lget(3), watgen.InsIdx(watgen.OpCall, mv),
-				lset(4), lset(5), lset(6), lset(7),
-				lget(7), ins("i64.reinterpret_f64"),
-				lget(6), ins("i32.reinterpret_f32"), ins("i64.extend_i32_u"), watgen.I64Const(3), ins("i64.rotl"), ins("i64.xor"),
-				lget(5), watgen.I64Const(7), ins("i64.rotl"), ins("i64.xor"),
-				lget(4), ins("i64.extend_i32_s"), watgen.I64Const(11), ins("i64.rotl"), ins("i64.xor")}, false)
 		u.addFunc("unr", ft(pv(i32), i32), nil, []watgen.Instr{watgen.Ins(watgen.OpNop), lget(0), watgen.If(""), watgen.Ins(watgen.OpUnreachable), watgen.Ins(watgen.OpEnd), watgen.Ins(watgen.OpNop), watgen.I32Const(1)}, false)
 		u.Calls = append(u.Calls, Call{Fn: "unr", Args: []uint64{0}, Instr: "unreachable", Class: "not-reached"}, Call{Fn: "unr", Args: []uint64{1}, Instr: "unreachable", Class: "reached"},
 			Call{Fn: "unr", Args: []uint64{0}, Instr: "unreachable", Class: "not-reached-after-trap"})
-		quad := [][4]Val{}
-		a32, a64, af32, af64 := IntAlpha(32), IntAlpha(64), FloatAlpha(32), FloatAlpha(64)
-		for k := 0; k < 16; k++ {
-			quad = append(quad, [4]Val{a32[(k*7+1)%len(a32)], a64[(k*5+2)%len(a64)], af32[(k*11+3)%len(af32)], af64[(k*13+4)%len(af64)]})
+		out = append(out, u)
+	}
+	for _, variant := range []string{"mixed-types", "mixed-types-explicit-return", "i32-pair", "i32-pair-explicit-return"} {
+		// multi-value results of an exported function, of a direct call and of an implicit
+		// (fall off the end) or explicit return
+		u := newUnit("call", "multi-value-"+variant)
+		explicit := strings.HasSuffix(variant, "explicit-return")
+		tail := func(b []watgen.Instr) []watgen.Instr {
+			if explicit {
+				return append(b, watgen.Ins(watgen.OpReturn))
+			}
+			return b
 		}
-		quad = append(quad, [4]Val{a32[8], a64[8], {NaN32[2], "snan:payload", "nan"}, {NaN64[1], "-nan:payload", "nan"}})
-		for _, q := range quad {
-			args := []uint64{q[0].Bits, q[1].Bits, q[2].Bits, q[3].Bits}
-			ds := q[0].Name + "," + q[1].Name + "," + q[2].Name + "," + q[3].Name
-			cl := q[0].Class + "," + q[1].Class + "," + q[2].Class + "," + q[3].Class
-			u.Calls = append(u.Calls, Call{Fn: "mv", Args: args, Instr: "multi-value-return", Class: cl, Desc: ds},
-				Call{Fn: "use_mv", Args: args, Instr: "multi-value-call", Class: cl, Desc: ds})
+		if strings.HasPrefix(variant, "mixed") {
+			// (i32 i64 f32 f64) -> (f64 f32 i64 i32)
+			mv := u.addFunc("mv", ft(pv(i32, i64, f32, f64), f64, f32, i64, i32), nil, tail([]watgen.Instr{lget(3), lget(2), lget(1), lget(0)}), false)
+			u.addFunc("use_mv", ft(pv(i32, i64, f32, f64), i64), []watgen.Local{{Id: "a", Type: i32}, {Id: "b", Type: i64}, {Id: "c", Type: f32}, {Id: "d", Type: f64}},
+				[]watgen.Instr{lget(0), lget(1), lget(2), lget(3), watgen.InsIdx(watgen.OpCall, mv),
+					lset(4), lset(5), lset(6), lset(7),
+					lget(7), ins("i64.reinterpret_f64"),
+					lget(6), ins("i32.reinterpret_f32"), ins("i64.extend_i32_u"), watgen.I64Const(3), ins("i64.shl"), ins("i64.xor"),
+					lget(5), watgen.I64Const(7), ins("i64.shl"), ins("i64.xor"),
+					lget(4), ins("i64.extend_i32_s"), watgen.I64Const(11), ins("i64.shl"), ins("i64.xor")}, false)
+			quad := [][4]Val{}
+			a32, a64, af32, af64 := IntAlpha(32), IntAlpha(64), FloatAlpha(32), FloatAlpha(64)
+			for k := 0; k < 16; k++ {
+				quad = append(quad, [4]Val{a32[(k*7+1)%len(a32)], a64[(k*5+2)%len(a64)], af32[(k*11+3)%len(af32)], af64[(k*13+4)%len(af64)]})
+			}
+			quad = append(quad, [4]Val{a32[8], a64[8], {NaN32[2], "snan:payload", "nan"}, {NaN64[1], "-nan:payload", "nan"}})
+			for _, q := range quad {
+				args := []uint64{q[0].Bits, q[1].Bits, q[2].Bits, q[3].Bits}
+				ds := q[0].Name + "," + q[1].Name + "," + q[2].Name + "," + q[3].Name
+				u.Calls = append(u.Calls, Call{Fn: "mv", Args: args, Instr: "multi-value-return(" + variant + ")", Class: "exported", Desc: ds},
+					Call{Fn: "use_mv", Args: args, Instr: "multi-value-return(" + variant + ")", Class: "internal-call", Desc: ds})
+			}
+		} else {
+			// (a b) -> (a+1, b*2)
+			mv := u.addFunc("mv2", ft(pv(i32, i32), i32, i32), nil, tail([]watgen.Instr{lget(0), watgen.I32Const(1), ins("i32.add"), lget(1), watgen.I32Const(2), ins("i32.mul")}), false)
+			u.addFunc("use_mv2", ft(pv(i32, i32), i32), nil, []watgen.Instr{lget(0), lget(1), watgen.InsIdx(watgen.OpCall, mv), watgen.I32Const(16), ins("i32.shl"), ins("i32.xor")}, false)
+			for _, a := range []Val{{3, "3", ""}, {0xffffffff, "-1", ""}, {0x7fffffff, "MAX", ""}} {
+				for _, b := range []Val{{10, "10", ""}, {0, "0", ""}, {0x80000000, "MIN", ""}} {
+					u.Calls = append(u.Calls, Call{Fn: "mv2", Args: []uint64{a.Bits, b.Bits}, Instr: "multi-value-return(" + variant + ")", Class: "exported", Desc: a.Name + "," + b.Name},
+						Call{Fn: "use_mv2", Args: []uint64{a.Bits, b.Bits}, Instr: "multi-value-return(" + variant + ")", Class: "internal-call", Desc: a.Name + "," + b.Name})
+				}
+			}
 		}
 		out = append(out, u)
 	}
@@ -740,16 +763,16 @@ func callUnits(o Options) []*Unit {
 		u.Module.Table = &watgen.Table{Id: "tab", Lim: watgen.Limits{Min: 5}}
 		u.Module.Types = []watgen.TypeDef{
 			{Id: "t_i32", FuncType: ft(pv(i32), i32)},
-			{Id: "t_mv", FuncType: ft(pv(i32), i32, i64)},
+			{Id: "t_mv", FuncType: ft(pv(i32), i32, i32)},
 		}
 		inc := u.addHidden("f_inc", ft(pv(i32), i32), nil, []watgen.Instr{lget(0), watgen.I32Const(1), ins("i32.add")})
 		w64 := u.addHidden("f_i64", ft(pv(i64), i64), nil, []watgen.Instr{lget(0), watgen.I64Const(1), ins("i64.add")})
 		dec := u.addHidden("f_dec", ft(pv(i32), i32), nil, []watgen.Instr{lget(0), watgen.I32Const(1), ins("i32.sub")})
-		fmv := u.addHidden("f_mv", ft(pv(i32), i32, i64), nil, []watgen.Instr{lget(0), lget(0), ins("i64.extend_i32_s"), watgen.I64Const(32), ins("i64.shl")})
+		fmv := u.addHidden("f_pair", ft(pv(i32), i32, i32), nil, []watgen.Instr{lget(0), lget(0), watgen.I32Const(3), ins("i32.mul"), watgen.Ins(watgen.OpReturn)})
 		u.Module.Elems = []watgen.Elem{{Offset: 1, Funcs: []uint32{inc, w64, dec, fmv}}}
 		u.addFunc("ci", ft(pv(i32, i32), i32), nil, []watgen.Instr{lget(1), lget(0), {Op: watgen.OpCallIndirect, Idx: 0}}, false)
-		u.addFunc("ci_mv", ft(pv(i32, i32), i64), []watgen.Local{{Id: "hi", Type: i64}},
-			[]watgen.Instr{lget(1), lget(0), {Op: watgen.OpCallIndirect, Idx: 1}, lset(2), ins("i64.extend_i32_u"), lget(2), ins("i64.xor")}, false)
+		u.addFunc("ci_mv", ft(pv(i32, i32), i32), nil,
+			[]watgen.Instr{lget(1), lget(0), {Op: watgen.OpCallIndirect, Idx: 1}, watgen.I32Const(8), ins("i32.shl"), ins("i32.xor")}, false)
 		idx := []Val{{1, "1", "in-range,same-signature"}, {3, "3", "in-range,same-signature"}, {0, "0", "null-entry"}, {2, "2", "wrong-signature"}, {4, "4", "wrong-signature(multi-value)"},
 			{5, "5", "index=size"}, {0xffffffff, "-1", "index=-1"}, {0x7fffffff, "MAX", "index=MAX"}}
 		for _, i := range idx {
@@ -797,25 +820,62 @@ func callUnits(o Options) []*Unit {
 
 func modUnits() []*Unit {
 	var out []*Unit
+	peeks := func(u *Unit, addrs ...uint32) {
+		for _, a := range addrs {
+			u.Calls = append(u.Calls, Call{Fn: "peek", Args: []uint64{uint64(a)}, Instr: "data", Class: strings.TrimPrefix(u.Name, "mod/"), Desc: fmt.Sprintf("byte@%d", a)})
+		}
+	}
+	peek := func(u *Unit) {
+		u.addFunc("peek", ft(pv(i32), i32), nil, []watgen.Instr{lget(0), watgen.MemIns(watgen.OpByName("i32.load8_u").Op, 0, 0)}, false)
+	}
 	{
 		u := newUnit("mod", "data+start")
 		u.addMemory(1, 1)
 		u.Module.Globals = []watgen.Global{{Id: "g", Type: i32, Mut: true, Init: watgen.I32Const(1)}}
 		u.Module.Datas = []watgen.Data{
-			{Offset: 8, Bytes: watgen.TrickyData},
-			{Offset: 64, Bytes: []byte("\x0012\xffab\x07Fe\\\\n\\\"q\"\\")},
-			{Offset: 200, Bytes: []byte("plain text 0123456789 ?!")},
+			{Offset: 8, Bytes: []byte("plain text 0123456789 ?!")},
+			{Offset: 64, Bytes: []byte("\x0012\xffab\x07Fe\x00\x00A")},
 			{Offset: 65535, Bytes: []byte{0x2a}},
 		}
-		u.addFunc("peek", ft(pv(i32), i32), nil, []watgen.Instr{lget(0), watgen.MemIns(watgen.OpByName("i32.load8_u").Op, 0, 0)}, false)
+		peek(u)
 		u.addFunc("getg", ft(nil, i32), nil, []watgen.Instr{watgen.InsIdx(watgen.OpGlobalGet, 0)}, false)
-		st := u.addHidden("init", ft(nil), nil, []watgen.Instr{watgen.I32Const(42), watgen.InsIdx(watgen.OpGlobalSet, 0),
+		st := u.addHidden("boot", ft(nil), nil, []watgen.Instr{watgen.I32Const(42), watgen.InsIdx(watgen.OpGlobalSet, 0),
 			watgen.I32Const(300), watgen.I32Const(0x11223344), watgen.MemIns(watgen.OpI32Store, 0, 2)})
 		u.Module.HasStart, u.Module.Start = true, st
 		u.Calls = append(u.Calls, Call{Fn: "getg", Instr: "start", Class: "global-set-by-start", Fresh: true})
-		for _, a := range []uint32{8, 10, 11, 12, 13, 14, 15, 19, 20, 64, 65, 67, 68, 71, 74, 75, 76, 77, 79, 80, 81, 200, 223, 300, 303, 65535} {
-			u.Calls = append(u.Calls, Call{Fn: "peek", Args: []uint64{uint64(a)}, Instr: "data", Class: fmt.Sprintf("byte@%d", a)})
-		}
+		peeks(u, 8, 31, 64, 65, 66, 67, 68, 69, 70, 71, 72, 73, 74, 75, 300, 303, 65535)
+		out = append(out, u)
+	}
+	{
+		// the data alphabet of watgen: NUL, 0xff, quote, backslash, newline, tab, UTF-8
+		u := newUnit("mod", "data-tricky")
+		u.addMemory(1, 1)
+		u.Module.Datas = []watgen.Data{{Offset: 8, Bytes: watgen.TrickyData}}
+		peek(u)
+		peeks(u, 8, 9, 10, 11, 12, 13, 14, 15, 16, 17, 18, 19, 20, 21)
+		u.Calls[0].Fresh = true
+		out = append(out, u)
+	}
+	{
+		u := newUnit("mod", "data-backslash-before-quote")
+		u.addMemory(1, 1)
+		u.Module.Datas = []watgen.Data{{Offset: 8, Bytes: []byte("a\\\"q")}}
+		peek(u)
+		peeks(u, 8, 9, 10, 11)
+		out = append(out, u)
+	}
+	{
+		// identifiers that are distinct in WebAssembly (separate name spaces) or innocent there
+		u := newUnit("mod", "global-and-function-with-one-identifier")
+		u.Module.Globals = []watgen.Global{{Id: "x", Type: i32, Init: watgen.I32Const(5)}}
+		u.addFunc("x", ft(nil, i32), nil, []watgen.Instr{watgen.InsIdx(watgen.OpGlobalGet, 0)}, false)
+		u.Calls = []Call{{Fn: "x", Instr: "identifiers", Class: "global-and-function-named-x"}}
+		out = append(out, u)
+	}
+	{
+		u := newUnit("mod", "function-named-init")
+		u.addFunc("init", ft(nil, i32), nil, []watgen.Instr{watgen.I32Const(7)}, false)
+		u.Calls = []Call{{Fn: "init", Instr: "identifiers", Class: "function-named-init"}}
 		out = append(out, u)
 	}
 	return out
